@@ -46,8 +46,8 @@ var (
 		{`nil`, nil}, // nil key / nil value
 		{`e1`, e1},   // bare errors / error values
 		{`e2`, e2},
-		{`7`, 7},
-		{`[]int{1}`, []int{1}}, // a value zap.Any turns into an array field
+		{`(*derefErr)(nil)`, (*derefErr)(nil)}, // a nil pointer inside a non-nil error interface: still a bare error (logged as the error field, <nil>)
+		{`[]int{1}`, []int{1}},                 // a value zap.Any turns into an array field
 		{`zap.String("error","typed")`, typedErrKeyAtom}, // a typed field that happens to use the key the first bare error gets
 		{`errObj{}`, errObj{}},                           // an error that is also an ObjectMarshaler: bare it is an error, as a pair's value zap.Any picks the object form
 	}
@@ -65,6 +65,8 @@ type fmtErr struct{}
 
 func (fmtErr) Error() string              { return "plain" }
 func (fmtErr) Format(f fmt.State, c rune) { fmt.Fprintf(f, "formatted(%c)", c) }
+
+type status string
 
 type derefErr struct{ msg string }
 
@@ -545,8 +547,10 @@ type fatom struct {
 
 func fAtoms(thorough bool) []fatom {
 	a := []fatom{{`1`, 1}, {`"s"`, "s"}, {`nil`, nil}, {`e1`, e1}, {`struct{}{}`, struct{}{}}, {`"a\n"`, "a\n"},
-		{`fmtErr{}`, fmtErr{}},                 // an error that implements fmt.Formatter: fmt does not print Error()
-		{`(*derefErr)(nil)`, (*derefErr)(nil)}} // a typed-nil error whose Error dereferences: fmt prints <nil>
+		{`fmtErr{}`, fmtErr{}},                   // an error that implements fmt.Formatter: fmt does not print Error()
+		{`(*derefErr)(nil)`, (*derefErr)(nil)},   // a typed-nil error whose Error dereferences: fmt prints <nil>
+		{`status("shipped")`, status("shipped")}, // a named string type: fmt's spacing rules go by kind, not by the exact type string
+		{`[]byte("b")`, []byte("b")}}
 	if thorough {
 		a = append(a, fatom{`2.5`, 2.5}, fatom{`"\n\n"`, "\n\n"}, fatom{`[]int{1}`, []int{1}})
 	}
